@@ -139,6 +139,12 @@ class Engine:
             self.assumptions.append(f"sort {name} is strictly totally ordered by {order} (Python '<' on the elements)")
         return pt
 
+    def declare_ref_attr(self, sort, attr, fn):
+        """`x.attr` on a value of uninterpreted sort `sort` reads the spec function `fn(x)`."""
+        if not hasattr(self, "ref_attrs"):
+            self.ref_attrs = {}
+        self.ref_attrs[(sort, attr)] = fn
+
     def declare_enum(self, name, members):
         pt = self.tenv.declare_enum(name, members)
         self.globals[name] = EnumClass(name, list(members))
